@@ -27,13 +27,25 @@ pub mod chrono {
     }
     impl core::ops::AddAssign<Duration> for Duration {
         #[verifier::external_body]
-        fn add_assign(&mut self, d: Duration) ensures dur_ms(*final(self)) == dur_ms(*old(self)) + dur_ms(d) { unimplemented!() }
+        fn add_assign(&mut self, d: Duration) { unimplemented!() }
     }
+    // `a += b` on durations adds the millisecond views (ASSUMED chrono contract)
+    impl vstd::std_specs::ops::AddAssignSpecImpl<Duration> for Duration {
+        open spec fn obeys_add_assign_spec() -> bool { true }
+        open spec fn add_assign_req(&self, rhs: Duration) -> bool { true }
+        uninterp spec fn add_assign_spec(&self, rhs: Duration) -> &Duration;
+    }
+    pub broadcast axiom fn axiom_duration_add_assign(a: Duration, b: Duration)
+        ensures dur_ms(*(#[trigger] <Duration as vstd::std_specs::ops::AddAssignSpec<Duration>>::add_assign_spec(&a, b))) == dur_ms(a) + dur_ms(b);
 }
 use chrono::{DateTime, Utc};
 use chrono::Duration as ChronoDuration;
 pub uninterp spec fn ms(t: chrono::DateTime<chrono::Utc>) -> int;
 pub uninterp spec fn dur_ms(d: chrono::Duration) -> int;
+// R-shim for the saturating float-to-int cast `x as i64` (Verus leaves exec float casts uninterpreted)
+pub uninterp spec fn f64_as_i64(x: f64) -> i64;
+#[verifier::external_body]
+fn shim_f64_as_i64(x: f64) -> (r: i64) ensures r == f64_as_i64(x) { x as i64 }
 
 // ---- contracts of the pieces decided elsewhere ---------------------------------------------------------
 pub uninterp spec fn seq_of(name: Seq<char>) -> Option<int>;
@@ -56,7 +68,7 @@ impl ChunkTimingStats {
     #[verifier::external_body]
     fn get_average_attempts(&self, characteristics: &ChunkCharacteristics) -> (r: Option<f64>)
         // the mean of a non-empty window of usize attempt counts is non-negative (ASSUMED with the window)
-        ensures r == avg_attempts(*self, *characteristics), r matches Some(a) ==> (a as i64) >= 0
+        ensures r == avg_attempts(*self, *characteristics), r matches Some(a) ==> f64_as_i64(a) >= 0
     { unimplemented!() }
 }
 
@@ -89,7 +101,7 @@ spec fn estimate_spec(prev: ChunkIdentifier, vcp: Message, stats: Option<&ChunkT
                         channel_configuration: chan_of(e.channel_configuration) };
                     let hist = match stats { Some(st) => (avg_timing(*st, c), avg_attempts(*st, c)), None => (None, None) };
                     let wait = if hist.0 is Some && hist.1 is Some {
-                        dur_ms(hist.0->Some_0) + 1000 * ((hist.1->Some_0 as i64) - 1)
+                        dur_ms(hist.0->Some_0) + 1000 * (f64_as_i64(hist.1->Some_0) - 1)
                     } else { default_wait_ms(c.waveform_type, c.channel_configuration) };
                     r is Some && based_on(prev, r->Some_0, wait)
                 }
@@ -100,4 +112,16 @@ spec fn estimate_spec(prev: ChunkIdentifier, vcp: Message, stats: Option<&ChunkT
 // the estimate is the previous chunk's upload time (or, when unknown, some current time) plus `wait` ms
 spec fn based_on(prev: ChunkIdentifier, t: DateTime<Utc>, wait: int) -> bool {
     match prev.date_time { Some(p) => ms(t) == ms(p) + wait, None => exists|now: DateTime<Utc>| ms(t) == ms(now) + wait }
+}
+
+// C19 corollary: with non-negative recorded durations and at least one attempt per recorded sample, the estimate
+// is never earlier than the previous chunk's upload time
+proof fn lemma_estimate_not_earlier(prev: ChunkIdentifier, vcp: Message, stats: Option<&ChunkTimingStats>, r: Option<DateTime<Utc>>)
+    requires
+        estimate_spec(prev, vcp, stats, r), r is Some, prev.date_time is Some,
+        stats matches Some(st) ==> forall|c: ChunkCharacteristics|
+            (#[trigger] avg_timing(*st, c) matches Some(d) ==> dur_ms(d) >= 0)
+            && (avg_attempts(*st, c) matches Some(a) ==> f64_as_i64(a) >= 1),
+    ensures ms(r->Some_0) >= ms(prev.date_time->Some_0)
+{
 }
